@@ -7,7 +7,7 @@ corruption along every possible path, against an independent chain walk (``ecdsa
 import hashlib
 import itertools
 import json
-import os
+import multiprocessing
 import re
 
 from ..framework import Check, Violation
@@ -54,6 +54,10 @@ def all_forests():
     return out
 
 
+class _Enough(Exception):
+    """The loader ran out of budget: the case is cut short."""
+
+
 class C06(Check):
     id = "C06"
     level = "exploration"
@@ -93,30 +97,45 @@ class C06(Check):
         assert len(self.paths) == 64 and len(self.forests) == 211, (len(self.paths), len(self.forests))
         self.stride = 8
         self._el = {}
-        # a calibration mismatch is reported through a single failing case so that the framework
-        # turns it into HARNESS-ERROR / exit 2 (VERIF_NO_CALIBRATION=1: self-test of the enumeration)
-        self.calib_error = None
-        if not os.environ.get("VERIF_NO_CALIBRATION"):
-            try:
-                self.calibrate()
-            except HarnessError as e:
-                self.calib_error = str(e)
+        self.hangs = multiprocessing.get_context("fork").Value("i", 0)
+        # disagreements on the documented sample are violations like any other (framework merges them)
+        self.pre_violations = self.calibrate()
 
-    def calibrate(self):
+    def calibration_probes(self):
         txt = open(env.REPO + "/docs/attestation.md").read()
         blocks = re.findall(r"```json\n(.*?)```", txt, re.S)
-        doc = next(d for d in map(json.loads, blocks) if d.get("version") == 1)
+        docs = [d for d in map(json.loads, blocks) if d.get("version") == 1]
         m = re.search(r"issuer public key was `([0-9a-f]{130})`", txt)
-        if not m:
-            raise HarnessError("calibration: Ledger root key not found in docs/attestation.md")
-        root = m.group(1)
-        exp = R.v1_validate(doc, bytes.fromhex(root), self.ver)
-        if exp["ui"][0] != R.OK or exp["signer"] != (R.FAIL, "signer"):
-            raise HarnessError("calibration: reference walk on the documented sample gives %r" % (exp,))
-        got = self.impl.run_v1(doc, root)
-        if got[0] != "result" or self.mismatch(doc, exp, got[1]):
-            raise HarnessError("calibration: implementation and reference disagree on the documented "
-                               "sample: %r vs %r" % (got, exp))
+        if not m or not docs:
+            raise HarnessError("calibration: version-1 sample / Ledger root key not found in docs/attestation.md")
+        doc, root = docs[0], m.group(1)
+        probes = [("intact", doc, root)]
+        for i, e in enumerate(doc["elements"]):
+            for fld, pos in (("message", 3), ("signature", 20)) + ((("tweak", 5),) if "tweak" in e else ()):
+                d = G.clone(doc)
+                d["elements"][i][fld] = G.flip(bytes.fromhex(e[fld]), pos, 0).hex()
+                probes.append(("%s-%s-bit" % (e["name"], fld), d, root))
+        probes.append(("other-root", doc, self.world.pub("stranger").hex()))
+        return probes
+
+    def calibrate(self, only=None):
+        """The version-1 sample of docs/attestation.md under Ledger's published key, intact and with
+        one corruption per element field: reference walk and implementation must agree.  The
+        reference itself must give the verdicts DESIGN records (ui valid, signer invalid at signer)."""
+        vs = []
+        for probe, doc, root in self.calibration_probes():
+            if only is not None and probe != only:
+                continue
+            exp = R.v1_validate(doc, bytes.fromhex(root), self.ver)
+            if probe == "intact" and (exp["ui"][0] != R.OK or exp["signer"] != (R.FAIL, "signer")):
+                raise HarnessError("calibration: reference walk on the documented sample gives %r" % (exp,))
+            got = self.impl.run_v1(doc, root)
+            if got[0] != "result" or self.mismatch(doc, exp, got[1]):
+                vs.append(Violation("C06", "C06:calibration:documented-v1:" + probe,
+                                    {"kind": "calibration", "probe": probe}, None,
+                                    {"outcome": got[0], "result": got[1] if got[0] == "result" else repr(got[1])},
+                                    {"verdicts": exp}, "documented sample"))
+        return vs
 
     def bounds(self):
         return {"element_names": 4, "shapes": 11 ** 4, "paths": len(self.paths),
@@ -132,8 +151,6 @@ class C06(Check):
             "double-sha256", "high-s", "padded-der", "wrong-root", "negated-root", "compressed-root"]}
 
     def cases(self):
-        if self.calib_error:
-            return [{"kind": "calibration", "error": self.calib_error}]
         cs = []
         for a in range(len(OPTIONS)):
             for b in range(len(OPTIONS)):
@@ -169,16 +186,26 @@ class C06(Check):
         vs = []
         k = case["kind"]
         if k == "calibration":
-            raise HarnessError(case["error"])
+            return self.calibrate(only=case["probe"])
+        if self.hangs.value >= 4:
+            stats.bump("capped")       # a loader that does not return was reported: stop early
+            return vs
         if k == "one":
-            self.evaluate(case["doc"], bytes.fromhex(case["root"]), case.get("label", "replay"),
-                          stats, vs)
-        elif k == "shapes":
-            self.run_shapes(case, stats, vs)
-        elif k == "path":
-            self.run_path(self.paths[case["path"]], case["mask"], stats, vs)
-        elif k == "forest":
-            self.run_forest(self.forests[case["idx"]], stats, vs)
+            try:
+                self.evaluate(case["doc"], bytes.fromhex(case["root"]), case.get("label", "replay"),
+                              stats, vs)
+            except _Enough:
+                pass
+            return vs
+        try:
+            if k == "shapes":
+                self.run_shapes(case, stats, vs)
+            elif k == "path":
+                self.run_path(self.paths[case["path"]], case["mask"], stats, vs)
+            elif k == "forest":
+                self.run_forest(self.forests[case["idx"]], stats, vs)
+        except _Enough:
+            stats.bump("capped")
         return vs
 
     # ---- (a) all shapes ---------------------------------------------------------------
@@ -201,6 +228,13 @@ class C06(Check):
                                                % (shape, exp))
                 doc = self.doc_of(shape, present)
                 self.evaluate(doc, wrong, "wrong-root", stats, vs)
+                # ui / signer named as certifier while carrying their ordinary (non-key) message:
+                # correctly signed themselves, but nothing below them can verify
+                parents = {sb for _, sb, _ in shape}
+                if parents & {"ui", "signer"} & set(present):
+                    doc = {"version": 1, "targets": list(present),
+                           "elements": [self.element(n, sb, tw, False) for n, sb, tw in shape]}
+                    self.evaluate(doc, root, "certifier-not-a-key", stats, vs)
 
     # ---- (b) corruptions along a path -------------------------------------------------
     def run_path(self, path, mask, stats, vs):
@@ -273,6 +307,18 @@ class C06(Check):
                 nm = pmsg[:koff] + w.pub(pname, compressed=True)
                 run(variant(p - 1, message=nm.hex(), signature=w.sign(psigner, ptw, nm).hex()),
                     "key-compressed")
+                # parent correctly signed, but what it advertises is not a key
+                pub = w.pub(pname)
+                notkeys = [pmsg[:koff] + b"\x05" + pub[1:], pmsg[:koff] + pub[1:],
+                           pmsg[:koff] + b"\x04" + bytes(64), pmsg[:koff] + b"\x04" + b"\xff" * 32 + pub[33:],
+                           pmsg[:koff] + b"\x02" + b"\xff" * 32, pmsg[:koff] + pub[:33] + pub[33:-1]]
+                if pname in ("ui", "signer"):
+                    notkeys += [w.leafmsg[pname], b"\x04"]
+                else:
+                    notkeys += [pmsg[:max(koff, 1)]]
+                for nm in notkeys:
+                    run(variant(p - 1, message=nm.hex(), signature=w.sign(psigner, ptw, nm).hex()),
+                        "certifier-not-a-key")
                 # parent advertises somebody else's key
                 nm = pmsg[:koff] + w.pub("stranger")
                 run(variant(p - 1, message=nm.hex(), signature=w.sign(psigner, ptw, nm).hex()),
@@ -386,8 +432,22 @@ class C06(Check):
     def evaluate(self, doc, root, label, stats, vs):
         stats.evaluations += 1
         reason = R.v1_structure(doc)
-        got = self.impl.run_v1(doc, root.hex())
+        got = self.impl.run_v1(doc, root.hex(), guarded=reason is not None)
         case = {"kind": "one", "doc": doc, "root": root.hex(), "label": label}
+        if got[0] == "budget":
+            with self.hangs.get_lock():
+                self.hangs.value += 1
+            stats.observe(("budget", reason))
+            vs.append(Violation("C06", "C06:load-does-not-return:%s" % reason, case, None,
+                                {"budget": got[1]}, {"error": reason}, "structure"))
+            raise _Enough()
+        if got[0] == "raise":
+            cls, frame = self.impl.where(got[1])
+            stats.observe((label, "raise", type(got[1]).__name__))
+            vs.append(Violation("C06", "C06:validate-raises:%s:%s" % (type(got[1]).__name__, frame), case,
+                                None, {"raised": repr(got[1])},
+                                {"result": "a verdict per target"}, "validation gives a verdict"))
+            return None if reason is not None else R.v1_validate(doc, root, self.ver)
         if reason is not None:
             stats.observe(("structure", reason, got[0]))
             if got[0] != "loaderr":
